@@ -813,8 +813,20 @@ impl StrideRounding for Bitvector {
         let diff = interval.start.try_to_i128().unwrap() - self.try_to_i128().unwrap();
         let diff = diff % interval.stride as i128;
         let diff = (diff + interval.stride as i128) % interval.stride as i128;
-        let diff = Bitvector::from_u64(diff as u64).into_resize_unsigned(interval.bytesize());
-        self.signed_add_overflow_checked(&diff)
+        // `diff` may exceed the signed maximum of the bytesize, so the addition is done in `i128`.
+        let rounded_value = self.try_to_i128().unwrap() + diff;
+        let signed_max = Bitvector::signed_max_value(self.width())
+            .try_to_i128()
+            .unwrap();
+        if rounded_value > signed_max {
+            None
+        } else {
+            Some(
+                Bitvector::from_i128(rounded_value)
+                    .into_truncate(self.width())
+                    .unwrap(),
+            )
+        }
     }
 
     /// Round `self` down to the nearest value that adheres to the stride of `interval`.
@@ -826,8 +838,20 @@ impl StrideRounding for Bitvector {
         let diff = self.try_to_i128().unwrap() - interval.end.try_to_i128().unwrap();
         let diff = diff % interval.stride as i128;
         let diff = (diff + interval.stride as i128) % interval.stride as i128;
-        let diff = Bitvector::from_u64(diff as u64).into_resize_unsigned(interval.bytesize());
-        self.signed_sub_overflow_checked(&diff)
+        // `diff` may exceed the signed maximum of the bytesize, so the subtraction is done in `i128`.
+        let rounded_value = self.try_to_i128().unwrap() - diff;
+        let signed_min = Bitvector::signed_min_value(self.width())
+            .try_to_i128()
+            .unwrap();
+        if rounded_value < signed_min {
+            None
+        } else {
+            Some(
+                Bitvector::from_i128(rounded_value)
+                    .into_truncate(self.width())
+                    .unwrap(),
+            )
+        }
     }
 }
 
